@@ -3,6 +3,8 @@ import itertools, os, subprocess
 import gen_errno, gen_filetype
 from vlib import REPO
 
+FSTAT_WRAP = "-Wl,--wrap=fstat,--wrap=fstat64"   # h_c15.c can fake the device / inode numbers file_equals sees
+
 def hx(s): return s.encode().hex() or "-"
 
 def shapes(maxc, alphabet=("a", "b", ".", "..", "")):
@@ -46,7 +48,7 @@ def run(ck):
     if not ck.prove(["ZixModel.Properties.C15", "ZixModel.Properties.C15Link", "ZixModel.Properties.C15LinkInst"]):
         ck.report_proof_failure("theorems about the filesystem model / regenerated file-type table no longer build")
     srcs = ["h_c15.c"] + [os.path.join(REPO, "src", f) for f in ["posix/filesystem_posix.c", "system.c", "errno_status.c", "filesystem.c", "path.c", "string_view.c", "allocator.c", "posix/system_posix.c"]]
-    exe = ck.cc("h_c15", srcs)
+    exe = ck.cc("h_c15", srcs, flags=[FSTAT_WRAP])
     if not exe: return
     scratch = os.path.join(ck.work, "fs15"); os.makedirs(scratch, exist_ok=True)
     sp = ck.write_script("page.script", ["page"])
@@ -75,6 +77,10 @@ def run(ck):
                     lines.append("feq %d %d %d 0 %s" % (la, lb, d, alloc))
                     ck.count_distinct(lines[-1])
         lines.append("feq %d %d -1 1 ok" % (la, la))
+    # the inode fast path: same device and same non-zero inode = same file; anything else must compare the bytes
+    for da, ia, db, ib in [(-1, 42, -1, 42), (1000000007, 42, 1000000009, 42), (-1, 0, -1, 0), (-1, 42, -1, 43), (1000000007, 0, 1000000007, 0), (1000000007, 7, 1000000007, 7), (-1, 42, 1000000009, 42)]:
+        for same in (0, 1):
+            lines.append("feqino %d %d %d %d %d" % (da, ia, db, ib, same)); ck.count_distinct(lines[-1])
     lines.append("feqmissing")
     for k in ["reg", "dir", "fifo", "lnkreg", "lnkdir", "dangling", "chr", "sock", "missing"]: lines.append("ftype " + k)
     for k in ["missing", "0", "1", "4096", "70000"]: lines.append("fsize " + k)
